@@ -262,7 +262,10 @@ class CircuitTemplate(AbstractBaseTemplate):
         self.__doc__ = description
         self.circuits = circuits
         self.nodes = nodes
-        self.edges = edges
+        # (re-)register the edges like the constructor does: `get_edge`/`update_var` look edges up in `_edge_map`, which
+        # must refer to the tuples of the new edge list
+        self._edge_map = {}
+        self.edges = self._load_edge_templates(edges) if edges else []
 
     def update_var(self, node_vars: dict = None, edge_vars: list = None):
         """Update the value of node or edge variables.
